@@ -82,6 +82,40 @@ def fam_snap(seed, i, tier):
                        "reads": False, "w": {"submit": 14, "fire": 5, "hb": 12, "snapnow": 5, "gate": 3, "release": 5, "crash": 1, "armcrash": 2, "restart": 6, "adv": 3}}}
 
 
+def crashpoint_scenarios(workdir, seed, tier):
+    """C14's quantifier made literal: for every storage operation any node performs in a base
+    scenario, one run that crashes the node immediately before it and one immediately after it."""
+    bases = []
+    for p in sorted(glob.glob(os.path.join(ROOT, "corpus", "base", "*.json"))):
+        with open(p) as f:
+            bases.append(json.load(f))
+    traces, _, _ = driver.run_jobs([dict(b, name="cpbase-" + b["name"]) for b in bases], os.path.join(workdir, "cpbase"), seed)
+    ops = {}
+    for t in traces:
+        for e in driver.read_trace(t):
+            if "k" in e and "node" in e and e["ev"] in ("log_append", "log_truncate", "log_compact", "log_discard", "set_state",
+                                                      "snap_new", "snap_write", "snap_close", "snap_discard"):
+                key = (e["sc"], e["node"])
+                if e.get("inc", 1) == 1:
+                    ops[key] = max(ops.get(key, 0), e["k"])
+    variants = []
+    for b in bases:
+        for node in b["voters"]:
+            kmax = ops.get(("cpbase-" + b["name"], node), 0)
+            for k in range(2, kmax + 1):          # operation 1 is the Bootstrap append of the skeleton
+                for when in ("before", "after"):
+                    sc = json.loads(json.dumps(b))
+                    sc["name"] = "cp-%s-%s-%d%s" % (b["name"], node, k, when[0])
+                    sc["stimuli"] = [{"op": "armcrash", "n": node, "k": k - 1, "w": when}] + sc["stimuli"]
+                    variants.append(sc)
+    total = len(variants)
+    if tier == "quick" and total > 160:
+        rng = random.Random(sseed(seed, "cp", 0))
+        rng.shuffle(variants)
+        variants = variants[:160]
+    return variants, {"crash_points_enumerated": total, "crash_points_run": len(variants), "crash_point_base_scenarios": [b["name"] for b in bases]}
+
+
 def load_domain(name):
     import gzip
     with gzip.open(os.path.join(ROOT, "corpus", "domains", name + ".jsonl.gz"), "rt") as f:
@@ -364,7 +398,7 @@ PROPS = {
     "C06": dict(fams=[("core", 3), ("crash", 2)], corpus=["core", "crash"], mc="MC_core3", mc_deep="MC_core3_deep", gen=[("Gen_core3", ["a", "b", "c"], 40)], hae=True),
     "C07": dict(fams=[("core", 3), ("crash", 2)], corpus=["core", "crash"], mc="MC_core3", mc_deep="MC_core3_deep", gen=[("Gen_core3", ["a", "b", "c"], 40)]),
     "C08": dict(fams=[("core", 2), ("crash", 3)], corpus=["core", "crash"], mc="MC_crash3", mc_deep="MC_crash3_deep", hrv=True),
-    "C14": dict(fams=[("crash", 4), ("snap", 2)], corpus=["crash", "snap"], mc="MC_crash3", mc_deep="MC_crash3_deep"),
+    "C14": dict(fams=[("crash", 3), ("snap", 2)], corpus=["crash", "snap"], mc="MC_crash3", mc_deep="MC_crash3_deep", crashpoints=True),
     "C09": dict(fams=[("member", 3), ("member5", 3)], corpus=["member"], mc="MC_member", monitor_props=["C01", "C02", "C07", "C09", "C05"]),
     "C10": dict(fams=[("snap", 6)], corpus=["snap"], mc="MC_snap3", gen=[("Gen_snap3", ["a", "b", "c"], 45)]),
     "C11": dict(fams=[("snap", 6)], corpus=["snap"], mc="MC_snap3", gen=[("Gen_snap3", ["a", "b", "c"], 45)]),
@@ -396,6 +430,10 @@ def gen_scenarios(prop, tier, seed, workdir):
         EXTRA_COV.update(extra)
     if spec.get("hae"):
         a, extra = fam_hae_all(seed, tier)
+        scs += a
+        EXTRA_COV.update(extra)
+    if spec.get("crashpoints"):
+        a, extra = crashpoint_scenarios(workdir, seed, tier)
         scs += a
         EXTRA_COV.update(extra)
     if spec.get("hrv"):
